@@ -30,6 +30,7 @@ type c13Msg struct {
 	Upds       []Leaf // scalar / leaf-list updates
 	JSON       *c13JSON
 	LLKeys     []c13LLKeys
+	Bad        bool // carries one update the converter refuses (the implementation drops the notification); denotes nothing
 }
 
 type c13JSON struct {
@@ -53,6 +54,9 @@ func (m c13Msg) notification() *sdcpb.Notification {
 	}
 	if m.JSON != nil {
 		n.Update = append(n.Update, &sdcpb.Update{Path: m.JSON.At.Sdcpb(), Value: &sdcpb.TypedValue{Value: &sdcpb.TypedValue_JsonVal{JsonVal: []byte(m.JSON.Doc)}}})
+	}
+	if m.Bad {
+		n.Update = append(n.Update, &sdcpb.Update{Path: P("sys", "mtu").Sdcpb(), Value: &sdcpb.TypedValue{Value: &sdcpb.TypedValue_StringVal{StringVal: "not-a-number"}}})
 	}
 	for _, lk := range m.LLKeys {
 		for _, v := range lk.Vals {
@@ -89,6 +93,9 @@ func c13Alphabet() map[string]c13Msg {
 		// delete of the entry and a JSON blob for it in one notification
 		{Name: "rJ", Dels: []Path{P("if", e1)}, JSON: &c13JSON{At: P("if", e1), Doc: `{"descr":"j2"}`, Leaves: []Leaf{leaf("j2", "if", e1, "descr")}}},
 		{Name: "rE1", Dels: []Path{P("if", e1)}, Upds: []Leaf{leaf("n", "if", e1, "descr")}},
+		// notifications that leave nothing to store sit between two that touch the same path
+		{Name: "uE"},
+		{Name: "uBad", Bad: true},
 		{Name: "START", Start: true},
 		{Name: "END", End: true},
 	}
@@ -641,6 +648,13 @@ func c13Sequences() [][]string {
 				seqs = append(seqs, s)
 			}
 		}
+	}
+	// a notification that stores nothing between two that touch the same path
+	for _, mid := range []string{"uE", "uBad"} {
+		for _, pair := range [][2]string{{"uA", "uB"}, {"uA", "dD"}, {"dE1", "uA"}} {
+			seqs = append(seqs, []string{pair[0], mid, pair[1]})
+		}
+		seqs = append(seqs, []string{"START", "uA", mid, "uB", "END"})
 	}
 	// two cycles
 	seqs = append(seqs, []string{"START", "uA", "uX", "END", "START", "uX", "END"}, []string{"START", "uA", "END", "uB", "START", "uX", "END"})
